@@ -399,6 +399,46 @@ def identity_cases():
         priv.append({"variant": label, "dead": good})
     cases.append({"id": "private", "kind": "weak", "rows": priv})
 
+    # an owner that happens to be falsy (an empty container, a __bool__ that says no) is an instance like any other: bound signal,
+    # stable identity (also after the owner has become truthy), delivery, event stamped with the owner
+    falsy = []
+
+    class Basket:
+        added = Signal(EvA_)
+
+        def __init__(self):
+            self.items = []
+
+        def __len__(self):
+            return len(self.items)
+
+    class Flag:
+        changed = Signal(EvA_)
+        on = False
+
+        def __bool__(self):
+            return self.on
+
+    async def fmain():
+        for label, inst, attr, flip in (("empty-container", Basket(), "added", lambda o: o.items.append(1)),
+                                        ("bool-false", Flag(), "changed", lambda o: setattr(o, "on", True))):
+            try:
+                first = getattr(inst, attr)
+                got = []
+                ev = EvA_(5)
+                async with first.stream_events() as st:
+                    getattr(inst, attr).dispatch(ev)
+                    with anyio.move_on_after(1):
+                        got.append((await st.__anext__()).n)
+                good = first is getattr(inst, attr) and got == [5] and ev.source is inst
+                flip(inst)
+                good = good and getattr(inst, attr) is first
+            except Exception:  # noqa: BLE001
+                good = False
+            falsy.append({"variant": label, "dead": good})
+    vclock.run(fmain, backend="asyncio", seed=0)
+    cases.append({"id": "falsy", "kind": "weak", "rows": falsy})
+
     # the signal of a Context (resource_added) and a signal declared by a Context subclass: the same bound signal before the context
     # is entered, while it is open and after it has been closed; a listener that subscribed through the object obtained earlier
     # receives what is dispatched through a later access
